@@ -82,9 +82,22 @@ impl Spanned for Assign {
 impl ToInternedString for Assign {
     #[inline]
     fn to_interned_string(&self, interner: &Interner) -> String {
+        let lhs = self.lhs.to_interned_string(interner);
+        // The parser names an anonymous function that is assigned to a plain identifier. One that
+        // is still anonymous was assigned to a parenthesized identifier, which does not name it.
+        let lhs = if matches!(&*self.lhs, AssignTarget::Identifier(_))
+            && matches!(
+                self.op,
+                AssignOp::Assign | AssignOp::BoolAnd | AssignOp::BoolOr | AssignOp::Coalesce
+            )
+            && self.rhs.is_anonymous_function_definition()
+        {
+            format!("({lhs})")
+        } else {
+            lhs
+        };
         format!(
-            "{} {} {}",
-            self.lhs.to_interned_string(interner),
+            "{lhs} {} {}",
             self.op,
             self.rhs.to_interned_string(interner)
         )
